@@ -449,6 +449,8 @@ fn directed(sh: &mut Shard, tier: Tier) {
 
 fn run(sh: &mut Shard) {
     let tier = sh.cfg.tier;
+    // the interpreter's own command-line program, unoptimised and release, on the long-run ladders
+    crate::cliprof::run_family(sh, "cli-profiles");
     let (lmax, nmax) = if tier == Tier::Quick { (4, 3) } else { (5, 4) };
     for len in 1..=nmax {
         strings(sh, "text", CHARS, len, "", 50_000);
@@ -466,6 +468,10 @@ fn run(sh: &mut Shard) {
 }
 
 fn replay(sh: &mut Shard, case: &Value) {
+    if case.get("cli").is_some() {
+        crate::cliprof::replay(sh, "cli-profiles", case);
+        return;
+    }
     sh.mine();
     // a case that killed its worker is recorded as the bare input text
     let text = case["input"].as_str().or(case.as_str());
